@@ -43,6 +43,8 @@ func init() {
 			ruleCtxAge(r, []string{"sstables.SuperSSTableReader.Scan", "sstables.SuperSSTableReader.ScanStartingAt", "sstables.SuperSSTableReader.ScanRange"})
 			ruleStackErrflow(r)
 			ruleNewestFirst(r)
+			// (a map index that answers with another key's entry changes what the stack returns for the key)
+			ruleMapLookupVerified(r)
 			ruleLatestWinsArgmax(r)
 			ruleHeapShape(r)
 			ruleSentinelForm(r, "pq", "sstables")
